@@ -34,7 +34,7 @@ impl Rng {
 /// select/template/frameset/table tags, foreign content, case variants.
 pub const FRAGS: &[&str] = &[
     // text and character references
-    "x", "hello ", " ", "\n", "&amp;", "&", "a&b;c", "\0", "\r\n", "é", "日本", "😀",
+    "x", "hello ", " ", "\n", "&amp;", "&", "a&b;c", "\0", "\r\n", "é", "日本", "😀", "\u{FEFF}", "a\u{FEFF}b",
     // ordinary tags and attribute syntaxes
     "<a>", "</a>", "<A>", "</A >", "<div>", "</div>", "<p>", "</p>", "<b>", "</b>", "<br>", "<br/>",
     "<img src=x>", "<a href=x>", "<a href='x y'>", "<a href=\"x>y\">", "<a b>", "<a b c=d>",
